@@ -321,7 +321,7 @@ def run(ck: Check):
     short = [p for p in faulted if len(p) <= L1]
     longer = [p for p in faulted if len(p) > L1]
     rng.shuffle(longer)
-    progs2 = short + longer[:ck.n(3500, 120000)]
+    progs2 = short + longer[:ck.n(3500, 60000)]
     # ---- stage 3: longer programs: recovery after an abortable error, everything after a fatal one,
     #               random programs of length 5-6 with one or two faults
     scripted = []
@@ -336,7 +336,7 @@ def run(ck: Check):
                     scripted.append(tuple([(c, 0) for c in pre] + [(call, fault_num(idx, k))] + [(c, 0) for c in tail]))
     witness = ((0, 0), (1, fault_num(1, 7)), (4, 0))
     scripted.append(witness)
-    for _ in range(ck.n(800, 60000)):
+    for _ in range(ck.n(800, 30000)):
         L = rng.choice([5, 6])
         # biased towards protocol order so that requests actually happen
         p = []
